@@ -136,7 +136,8 @@ class Driver:
         self.vkeys = set()
         self.features = set()
         self.counts = {}
-        self.progress_fd = os.open(os.path.join(d, "progress.txt"), os.O_WRONLY | os.O_CREAT | os.O_TRUNC)
+        self.progress_fd = os.open(os.environ.get("VF_PROGRESS") or os.path.join(d, "progress.txt"),
+                                   os.O_WRONLY | os.O_CREAT | os.O_TRUNC)
         sys.path.insert(0, d)
         self.step("import")
         import mod
@@ -156,6 +157,7 @@ class Driver:
         self.none_returns = 0
         self.size_eids = {f["eid"] for c in model["classes"] for f in c["methods"] if f.get("operator") == "len"}
         self.ctxkey = None
+        self.prestate = {}
         self.pyclass = {}
         self.pool = []
         self.live = {}       # iid -> dynamic class (from C/D events)
@@ -489,7 +491,7 @@ class Driver:
                     return "yes"
                 return "maybe" if -2 ** 31 <= a.v < 2 ** 31 else "oor"
             if c == "bool":
-                return "yes" if int(a.v) in [mb["value"] for mb in e["members"]] else "maybe"
+                return "yes"
             if c in ("float", "enum", "obj"):
                 return "maybe"
             return "no"
@@ -539,7 +541,8 @@ class Driver:
             return "s" + a.v.encode("utf-8").hex()
         if k == "obj":
             if t["mode"] == "val":
-                return "v" + str(self.state(t["cls"], a.t.w))
+                pre = self.prestate.get((id(a.t), t["cls"]))
+                return "v" + str(pre if pre is not None else self.state(t["cls"], a.t.w))
             return "o" + str(a.t.iid)
         raise KeyError(k)
 
@@ -717,6 +720,14 @@ class Driver:
         callsig = f"{what}({', '.join(argdesc)})" + (f" on <{recv.cls} iid={recv.iid}{' const' if recv.const else ''}>" if recv else "")
         self.step(f"{mode} {g['kind']} {g['owner']}::{g['name']} {callsig}")
         snap = self.snapshot(recv, args, kw)
+        self.prestate = {}
+        for a_ in list(args) + list(kw.values()):
+            if a_.c == "obj":
+                for f_ in fns:
+                    for p_ in f_["params"]:
+                        if p_["type"]["k"] == "obj" and p_["type"]["mode"] == "val" and self.isa(a_.t.cls, p_["type"]["cls"]) \
+                                and a_.t.cls == p_["type"]["cls"]:
+                            self.prestate[(id(a_.t), p_["type"]["cls"])] = self.state(a_.t.cls, a_.t.w)
         pyargs = [a.py() for a in args]
         pykw = {k: a.py() for k, a in kw.items()}
         self.trace()
@@ -758,6 +769,17 @@ class Driver:
                     main.remove(e)
                     tol.append(e)
                     self.count("coercion_temporaries")
+            elif cf_ is not None and exc is not None and eid not in own_eids and len(cf_["params"]) >= 1 and not cf_.get("explicit"):
+                # a converting constructor that built a temporary from the very value passed (and destroyed it) before
+                # the call was rejected for another reason changed no object
+                ti = int(fl.get("this", 0))
+                t0 = cf_["params"][0]["type"]
+                if ti in created and ti in destroyed and any(
+                        a_.c != "obj" and self.acc(a_, t0) == "yes" and self.logtok(a_, t0) == fl.get("a0")
+                        for a_ in list(args) + list(kw.values())):
+                    main.remove(e)
+                    tol.append(e)
+                    self.count("coercion_temporaries")
             elif eid in self.size_eids and eid not in own_eids:
                 # size() is __len__: consulted by the sequence protocol before operator [] and by truth testing of an
                 # instance passed for a bool parameter
@@ -768,7 +790,7 @@ class Driver:
         if none_rc is not None and exc is None and res is None:
             self.none_returns += 1
         if pend and exc is None:
-            why = "args=" + argcats
+            why = "args=" + argcats.replace("-const", "")
             for f_, st_, sl_ in sts:
                 if st_ == "oor":
                     for s_, p_ in zip(sl_, f_["params"]):
@@ -796,8 +818,15 @@ class Driver:
                             else:
                                 why = f"param={tcat(p_['type'])},arg={s_.cat().replace('-const', '') if s_.c != 'junk' else s_.extra}"
                             break
-                elif f_ran is not None and f_ran.get("kind") == "ctor":
-                    why = "coercion-constructor:" + ",".join(tcat(p["type"]) for p in f_ran["params"])
+                elif f_ran is not None and f_ran.get("kind") == "ctor" and f_ran["params"]:
+                    # a converting constructor run on the way: judge it like a function with that parameter
+                    t0_ = f_ran["params"][0]["type"]
+                    why = "coercion-constructor:" + tcat(t0_)
+                    for a_ in list(args) + list(kw.values()):
+                        if a_.c == "obj" and t0_["k"] != "obj" and self.acc(a_, t0_) == "maybe":
+                            why = f"param={tcat(t0_)},arg=instance"
+                        elif a_.c != "obj" and self.acc(a_, t0_) == "oor":
+                            why = "arg=int-out-of-range"
                 self.bad(f"body-ran-but-raised:exc={exc}:{why}", call=callsig, exc=excmsg, trace=[l for _, _, l in ev][:6])
             for t, st in snap:
                 if self.state(t.cls, t.w) != st and not main:
@@ -818,10 +847,20 @@ class Driver:
                 if oor:
                     pt = next((tkind(p["type"]) for f, st, sl in sts if st == "oor" for s, p in zip(sl, f["params"])
                                if s is not None and self.acc(s, p["type"]) == "oor"), "?")
+                    f_ran = next((f for f in fns if main and f["eid"] == main[0][0]), None)
+                    if f_ran is not None:
+                        rsl = self.bind(f_ran, args, kw) or []
+                        pt = next((tkind(p["type"]) for s, p in zip(rsl, f_ran["params"])
+                                   if s is not None and self.acc(s, p["type"]) == "oor"), pt)
                     self.bad(f"no-overflowerror:param={pt}", call=callsig, trace=[l for _, _, l in ev][:4], returned=repr(res)[:80])
                 else:
                     bads = self.neg_reason(sts, args, kw, recv)
-                    self.bad(f"no-typeerror:{bads}", call=callsig, trace=[l for _, _, l in ev][:4], returned=repr(res)[:80])
+                    m_ = bads.startswith("arg=instance-const,param=obj:")
+                    if m_ and main and any(v_[0] == "o" and v_[1:].isdigit() and int(v_[1:]) in created
+                                            for k_, v_ in main[-1][1].items() if k_.startswith("a") and v_):
+                        self.bad("const-argument-passed-as-copy:" + bads.split(",")[1], call=callsig, trace=[l for _, _, l in ev][:4])
+                    else:
+                        self.bad(f"no-typeerror:{bads}", call=callsig, trace=[l for _, _, l in ev][:4], returned=repr(res)[:80])
             else:
                 strict = oor and len(fns) == 1 and all(
                     s_ is None or self.acc(s_, p_["type"]) in ("yes", "oor") for s_, p_ in zip(sts[0][2], fns[0]["params"]))
@@ -851,9 +890,9 @@ class Driver:
                     self.count("keyword_calls_declined")
                 else:
                     sp = self.special(f0, sl0)
-                    if exc == "OverflowError" and oor:
+                    if exc == "OverflowError" and any_oor:
                         # the range check of another overload of the set raised instead of letting the next one try
-                        pt = next((tkind(p_["type"]) for f_, st_, sl_ in sts if st_ == "oor" for s_, p_ in zip(sl_, f_["params"])
+                        pt = next((tkind(p_["type"]) for f_, st_, sl_ in sts if sl_ for s_, p_ in zip(sl_, f_["params"])
                                    if s_ is not None and self.acc(s_, p_["type"]) == "oor"), "?")
                         self.bad("positive-rejected:exc=OverflowError:range-check-of-other-overload", call=callsig, exc=excmsg, param=pt)
                     elif sp:
@@ -869,8 +908,8 @@ class Driver:
                     oorp = [p_ for s_, p_ in zip(rsl or [], ran[0]["params"]) if s_ is not None and self.acc(s_, p_["type"]) == "oor"]
                     if oorp:
                         # an overload whose integer parameter cannot hold the value took it anyway (no range check)
-                        self.bad(f"wrong-overload:out-of-range-int-accepted:param={tkind(oorp[0]['type'])}", call=callsig,
-                                 trace=[l for _, _, l in ev][:6])
+                        self.bad(f"no-overflowerror:param={tkind(oorp[0]['type'])}", call=callsig, trace=[l for _, _, l in ev][:6],
+                                 note="taken by an overload whose parameter cannot hold the value, although another overload matches")
                         rans = None
                     elif rsl and all(s_ is None or self.acc(s_, p_["type"]) == "yes" or
                                    (s_.c == "int" and p_["type"]["k"] == "float") for s_, p_ in zip(rsl, ran[0]["params"])):
@@ -906,12 +945,12 @@ class Driver:
                                  trace=[l2 for _, _, l2 in ev][:5])
                         continue
                     if fl.get("a%d" % i) != exp:
-                        self.bad(f"{'default' if s is None else 'arg'}-mismatch:param={tkind(p['type'])}" + (":kw" if kw else ""),
+                        self.bad(f"{'default' if s is None else 'arg'}-mismatch:param={tkind(p['type'])}" + (":kw" if kw and s is not None else ""),
                                  call=callsig, index=i, expected=exp, body_saw=fl.get("a%d" % i))
                 if g["kind"] == "ctor":
                     result_tr = self.check_ctor(f, res, fl, created, callsig)
                 else:
-                    result_tr = self.check_result(f, res, fl, callsig, recv, args, kw)
+                    result_tr = self.check_result(f, res, fl, callsig, recv, args, kw, created)
             if result_tr is None and exc is None and res is not None and (len(main) != 1 or main[0][0] not in exp_eids):
                 result_tr = self.adopt(res, callsig)     # whatever the wrong body returned has a lifetime too
         else:
@@ -928,6 +967,8 @@ class Driver:
                         if cf.get("explicit") and g["kind"] != "ctor":
                             self.bad("explicit-ctor-used-for-coercion", call=callsig, trace=[l2 for _, _, l2 in ev][:6])
                         continue
+                    if fns[0].get("operator") in CMP_OPS:
+                        continue     # Python asked the right operand's reflected comparison
                     self.bad(f"foreign-body-ran:kind={kindsig}", call=callsig, trace=[l2 for _, _, l2 in ev][:6])
                 # hold on to whatever came back so that its lifetime is judged too
                 result_tr = self.adopt(res, callsig)
@@ -951,7 +992,8 @@ class Driver:
     def special(self, f, slots):
         out = ""
         for s, p in zip(slots, f["params"]):
-            if s is not None and s.c == "enum" and s.v.value == -1:
+            if (s is not None and s.c == "enum" and s.v.value == -1) or \
+                    (s is None and p["type"]["k"] == "enum" and p["type"].get("scoped") and p["default_value"] == -1):
                 out = ":param=enum-scoped:enum-value=-1"
                 break
             if s is not None and s.c == "str" and p["type"]["k"] in ("string", "cstr") and any(ord(ch) > 127 for ch in s.v):
@@ -1040,7 +1082,7 @@ class Driver:
         self.features.add("ret:constructed" + (":copy" if f.get("copy") else ""))
         return self.track(res, q, True, False, callsig)
 
-    def check_result(self, f, got, fl, callsig, recv=None, args=(), kw=None):
+    def check_result(self, f, got, fl, callsig, recv=None, args=(), kw=None, created=()):
         rt = f["ret"]
         k = rt["k"]
         logged = fl.get("r")
@@ -1106,6 +1148,10 @@ class Driver:
                     self.bad("constness:value-result-const", call=callsig)
                 return self.track(got, wq, True, False, callsig)
             exp = int(logged[1:]) if logged != "n" else 0
+            if iid != exp and exp in created and any(a.c == "obj" and a.t.const for a in list(args) + list((kw or {}).values())):
+                # the body returned (a pointer into) the temporary copy made of a const argument, which is gone now
+                self.bad("const-argument-passed-as-copy:result-dangles", call=callsig, expected_iid=exp, got_iid=iid)
+                return None
             if iid != exp:
                 self.bad(f"identity:ret={tkind(rt)}", call=callsig, expected_iid=exp, got_iid=iid)
                 if iid not in self.live:
@@ -1277,7 +1323,7 @@ class Driver:
         if op == "+=" and recv is not None and recv.const:
             return None
         self.ctxkey = None
-        if op in CMP_OPS and any(a.c == "obj" and a.t.cls != recv.cls and self.isa(a.t.cls, recv.cls) for a in args):
+        if op in CMP_OPS + ("+", "-", "*") and any(a.c == "obj" and a.t.cls != recv.cls and self.isa(a.t.cls, recv.cls) for a in args):
             return None      # Python's data model asks the more derived right operand first: not the binding's doing
         if op in CMP_OPS and recv is not None and g["owner"] != recv.cls:
             # the rich-compare slot of a Python type is one function: a class that declares a comparison operator of
@@ -1313,8 +1359,14 @@ class Driver:
         if setter is not None and r.random() < 0.5 and not recv.const:
             g = dict(kind="method", owner=c["qname"], name=setter["name"], fns=[setter])
             how = r.random()
-            if how < 0.7:
-                a = self.good_arg(setter["params"][0]["type"])
+            pt = setter["params"][0]["type"]
+            if how < 0.6:
+                a = self.good_arg(pt)
+            elif how < 0.75 and pt["k"] == "int":
+                lo, hi = INT_RANGE[pt["c"]]
+                a = Arg("int", r.choice([hi + 1, lo - 1, 2 ** 63, 2 ** 70, -2 ** 70]))
+            elif how < 0.75 and pt["k"] == "float" and self.pool:
+                a = Arg("obj", t=r.choice(self.pool))
             else:
                 a = self.junk_arg()
             if a is None:
@@ -1560,6 +1612,9 @@ class Driver:
         others = [g for g in groups if g["kind"] != "ctor"]
         if only and only.startswith("ctor:"):
             others = [g for g in ctors if g["owner"] == only[5:]]
+        # sources of const handles (needed by focused replays that pass const instances)
+        helpers = [g for g in self.groups.values() if g["kind"] == "method" and len(g["fns"]) == 1 and
+                   g["fns"][0].get("returns") == "this" and g["fns"][0]["ret"].get("mode") in ("cptr", "cref")] if only else []
         # populate: a few live instances per class
         for rnd in range(3):
             for g in ctors:
@@ -1580,6 +1635,12 @@ class Driver:
                     self.do_seq()
                 elif only == "@setitem":
                     self.do_setitem()
+                elif only == "@copy":
+                    self.do_copy()
+                elif only == "@names":
+                    break
+                elif x < 0.1 and helpers:
+                    self.make_call(r.choice(helpers), "pos")
                 elif x < 0.75 and others:
                     self.make_call(r.choice(others))
                 elif x < 0.8:
@@ -1640,6 +1701,8 @@ class Driver:
             f = g["fns"][0]
             if (g["owner"] + "::" if g["owner"] else "", g["name"]) in self.missing:
                 continue
+            if any(p["type"]["k"] == "enum" and p["type"].get("scoped") for p in f["params"]):
+                continue      # converting an enum member runs Python code (enum.property), whose frames hold None
             recv = None
             if g["kind"] == "method" and not f.get("static"):
                 recv = self.receiver_for(g["owner"], need_nonconst=not f.get("const"))
